@@ -36,6 +36,7 @@ type Profile struct {
 	GPUNodesOnly                   bool // every node has GPUs
 	NoBindFailures                 bool // the binder model never fails a request
 	Fill                           bool // small nodes and many running workloads: clusters are (nearly) full
+	PPool                          int  // the scheduler is restricted to a node pool; nodes/pods carry pool labels
 	Contention                     bool // GPUs are the bottleneck: GPU nodes, GPU workloads, meaningful GPU quotas
 }
 
@@ -105,7 +106,22 @@ const (
 func GenWorld(t *rapid.T, pf Profile) *World {
 	w := &World{}
 	genConfig(t, pf, w)
+	if chance(t, pf.PPool, "nodePool") {
+		w.Config.Pool = "pool-a"
+	}
 	genNodes(t, pf, w)
+	if w.Config.Pool != "" {
+		for i := range w.Nodes {
+			switch uniform(t, 4, "nodePoolLabel") {
+			case 0:
+				w.Nodes[i].Labels[PoolLabelKey] = "pool-b"
+			case 1:
+				// no pool label
+			default:
+				w.Nodes[i].Labels[PoolLabelKey] = w.Config.Pool
+			}
+		}
+	}
 	genQueues(t, pf, w)
 	if chance(t, pf.PTopology, "hasTopology") {
 		w.Topologies = []Topology{{Name: "topo", Levels: []string{ZoneLabel, RackLabel, HostnameLabel}[:between(t, 1, 3, "topoLevels")]}}
